@@ -370,7 +370,7 @@ def replace(ei: int, ok: int, nk: int, x: int, v: int) -> bool:
     post: _
     """
     env = get_env().reset()
-    cells = [(f, tk, d) for f in fams() for tk in WHICH for d in (0, 1)]
+    cells = [(f, tk, d) for f in fams()[:2] for tk in WHICH for d in (0, 1)]
     f, tkind, depth = cells[hlib.PART % len(cells)]
     table = REPLACE_DICT if tkind == "dict" else REPLACE_LIST
     nsl = max(1, hlib.NPARTS // len(cells))
@@ -380,8 +380,7 @@ def replace(ei: int, ok: int, nk: int, x: int, v: int) -> bool:
     nkind = pick(NEW_KINDS if deep else NEW_QUICK, nk)
     if ent is None or okind is None or nkind is None:
         return finish(False, True)
-    if not deep:
-        v = 5  # one symbolic leaf (x) in the quick tier: fewer equality forks
+    v = 5  # one symbolic leaf (x): two symbolic leaves multiply the equality forks (6 800+ paths per partition, no verdict in 25 min)
     old = make_kind(okind, x)
     new = copy_tree(old) if nkind == "same" else make_kind(nkind, v)
     T = {"p": old, "s": 1} if tkind == "dict" else [old, 1]
@@ -552,12 +551,12 @@ def plan(tier):
             {"fn": "bounds", "nparts": 2, "timeout": 300},
         ]
     return [
-        {"fn": "refine", "nparts": 18 * 4, "timeout": 1500},
-        {"fn": "slices", "nparts": 14, "timeout": 1500},
-        {"fn": "compare", "nparts": 12, "timeout": 1500},
-        {"fn": "replace", "nparts": 48, "timeout": 1500},
+        {"fn": "refine", "nparts": 18 * 4, "timeout": 900},
+        {"fn": "slices", "nparts": 14, "timeout": 900},
+        {"fn": "compare", "nparts": 12, "timeout": 900},
+        {"fn": "replace", "nparts": 32, "timeout": 900},
         {"fn": "bounds", "nparts": 6, "timeout": 1500},
-        {"fn": "prog2", "nparts": 32, "timeout": 1500},
+        {"fn": "prog2", "nparts": 32, "timeout": 900},
     ]
 
 
@@ -577,7 +576,7 @@ def smoke(tier):
     for part in range(nb):
         for i in range(13):
             out.append(("bounds", (i, (i * 3) % 10, i % 5, i % 2), part, nb))
-    nrep = 16 if tier == "quick" else 48
+    nrep = 16 if tier == "quick" else 32
     for part in range(nrep):
         for ei in range(4):
             for ok in range(8):
